@@ -20,6 +20,8 @@ def slice_of(pre, D):
         hs = handles(op)
         if D & set(hs):
             keep.append(op); D |= set(hs)
+            if op[0] == 'F':
+                D -= set(hs)      # C16_free_forgets: what the handle held before its free cannot matter afterwards
     return keep[::-1]
 
 def run(ck):
@@ -149,6 +151,37 @@ def run(ck):
                    ['K:1:5:%d:%d:%d:%s' % (gen.NG, gen.NG, gen.NG, ','.join(gen.hexs(x) for x in seqs[2:])), 'R3:' + other, 'R1:' + pool['bad'][0], 'F3']][di % 3]
             hists.append(pre + ['R0:' + dp, 'A0:1:5:%d:%d:%d' % (gen.NG, gen.NG, gen.NG), 'W0:fasta:' + os.path.join(tmp, 'dw%d' % di), 'F0'])
             ck.count('explicit history: records sharing name and length, after other objects were created and freed')
+        # objects created where freed ones lay (the allocator hands the same chunks out again): a compare, both objects freed in
+        # either order, then a NEW reference whose rows are not in name order compared with a new test alignment; and block-format
+        # files with names of 30..75 bytes read after FASTA objects were freed (whatever is recycled must be re-initialised)
+        for ri in range(4 if quick else 16):
+            kind = 'dna' if ri % 2 == 0 else 'protein'
+            fam, seqs = gen.family(rng, kind, small=True)
+            seqs = [x for x in seqs if x]
+            if len(seqs) < 3: seqs = seqs + ['ACGTACGTTA' if kind == 'dna' else 'MKWLEFAHRT'] * 3
+            longn = ['%s_%d' % (gen.rand_seq(rng, 'abcdefghijklmnopqrstuvwxyz', rng.choice([30, 45, 75])), j) for j in range(len(seqs))]
+            ra, rb = gapify(rng, seqs, 0.3), gapify(rng, seqs, 0.3)
+            order = list(range(len(seqs))); rng.shuffle(order)
+            if order == sorted(order, key=lambda j: longn[j]): order = order[::-1]
+            pr = os.path.join(tmp, 'reuse_ref%d.%s' % (ri, 'aln' if ri % 2 else 'msf')); pt = os.path.join(tmp, 'reuse_test%d.afa' % ri)
+            open(pr, 'w').write(render_clu([longn[j] for j in order], [ra[j] for j in order], 60, 0) if ri % 2 else render_msf([longn[j] for j in order], [ra[j] for j in order], 50, kind == 'protein'))
+            open(pt, 'w').write(gen.fasta(longn, rb))
+            a0, b0 = pool['aln'][(2 * ri) % len(pool['aln'])][0], pool['aln'][(2 * ri + 1) % len(pool['aln'])][0]
+            frees = ['F1', 'F0'] if ri % 4 < 2 else ['F0', 'F1']
+            hists.append(['R0:' + a0, 'R1:' + b0, 'C0:1'] + frees + ['R0:' + pr, 'R1:' + pt, 'C0:1', 'F0', 'F1'])
+            # the same with small aligned-FASTA objects of equal shape (the new reference then lands exactly where the old one lay)
+            nm = ['delta', 'bravo', 'alpha', 'charlie', 'echo'][:max(3, min(5, len(seqs)))]
+            sq = [gen.rand_seq(rng, gen.PROT, 20) for _ in nm]
+            files = []
+            for tag in ('r1', 't1', 'r2', 't2'):
+                rows = gapify(rng, sq, 0.3)
+                idx = list(range(len(nm)))
+                if tag == 'r2': idx = idx[::-1] if sorted(nm) != nm[::-1] else idx
+                elif tag != 'r1': idx = sorted(idx, key=lambda j: nm[j])
+                fp = os.path.join(tmp, 'cc%d_%s.afa' % (ri, tag)); open(fp, 'w').write(gen.fasta([nm[j] for j in idx], [rows[j] for j in idx])); files.append(fp)
+            hists.append(['R0:' + files[0], 'R1:' + files[1], 'C0:1'] + frees + ['R0:' + files[2], 'R1:' + files[3], 'C0:1', 'F0', 'F1'])
+            hists.append(['R2:' + pool[kind][0], 'F2', 'R3:' + pool[kind][1], 'F3', 'R0:' + pr, 'A0:1:5:%d:%d:%d' % (gen.NG, gen.NG, gen.NG), 'W0:clu:' + os.path.join(tmp, 'reuse_w%d' % ri), 'F0'])
+            ck.count('explicit history: new objects where freed ones lay (compare after compare; long names after FASTA objects)')
         # ---- all histories in ONE process -----------------------------------------------------------------------
         lines = ['hist ' + ' '.join(ops) for ops in hists]
         if os.environ.get('KV_KEEP_TMP'):
